@@ -4,4 +4,5 @@ CONSTANTS
     Kinds = {"T", "C", "R", "L", "N", "H"}
     MaxLen = 4
     ReadSizes = {1, 2, 3, 4}
+    Short = FALSE
 INVARIANT GenPrint
